@@ -203,6 +203,23 @@ hzmp := pu x: int -> int do
     x
 end
 
+Zshop :: blob {
+    name: str,
+    cheapest: fn -> Zitem,
+    pick: fn -> Zkind,
+    at: fn -> (int, int),
+}
+
+Zitem :: blob {
+    label: str,
+    price: int,
+}
+
+Zkind :: enum
+    Num int,
+    Txt str,
+end
+
 zinf_case :: fn s -> int do
     case s do
         A zx -> 0 end
@@ -430,6 +447,11 @@ pub const C04_KINDS: &[Kind] = &[
     k("pure: call of a mutable global holding a pu function", Body::Stmts(&["zp :: pu -> int do", "    hzmp(1)", "end"])),
     k("pure: prime call of a mutable local holding a pu function", Body::Stmts(&["zmp := pu x: int -> int do", "    x", "end", "zp :: pu -> int do", "    zmp' 1", "end"])),
     k("pure: arrow call of a mutable local holding a pu function", Body::Stmts(&["zmp := pu x: int -> int do", "    x", "end", "zp :: pu -> int do", "    1 -> zmp'", "end"])),
+    // a mutable declaration is forbidden in a pure function whatever its value is - also a function literal
+    k("pure: := declaration of an fn literal", Body::InPure { prelude: &[], params: "", viol: &["zl := fn do", "end"] }),
+    k("pure: := declaration of a pu literal", Body::InPure { prelude: &[], params: "", viol: &["zl := pu x: int -> int do", "    x", "end"] }),
+    k("pure: typed mutable declaration of an fn literal", Body::InPure { prelude: &[], params: "", viol: &["zl: fn -> void = fn do", "end"] }),
+    k("pure: := declaration of an fn literal inside a closure inside the pure function", Body::InPure { prelude: &[], params: "", viol: &["zg :: fn m: int -> int do", "    zh := fn do", "    end", "    m", "end"] }),
 ];
 
 // ---------------------------------------------------------------- C05 kinds
@@ -472,6 +494,11 @@ pub const C05_KINDS: &[Kind] = &[
     k("case without else: a variant listed twice, another one missing", Body::Stmts(&["case Ze2.B do", "    A zx ->", "    end", "    B ->", "    end", "    B ->", "    end", "end"])),
     k("case without else: one variant listed three times", Body::Stmts(&["case Ze2.B do", "    C ->", "    end", "    C ->", "    end", "    C ->", "    end", "end"])),
     k("case without else through un-annotated function: duplicate branch hides a missing variant", Body::Stmts(&["zinf_case(Ze2.C)"])),
+    // shape checks on the RESULT of a function-typed field whose return type is declared further down
+    k("field access on the result of a fn field: blob lacks field", Body::Stmts(&["zh :: fn s: Zshop -> str do", "    zi :: s.cheapest()", "    zi.nope", "end"])),
+    k("case on the result of a fn field: enum lacks variant", Body::Stmts(&["zh :: fn s: Zshop -> int do", "    case s.pick() do", "        Numbr q -> q end", "        else 0 end", "    end", "end"])),
+    k("tuple index on the result of a fn field: out of range", Body::Stmts(&["zh :: fn s: Zshop -> int do", "    s.at()[2]", "end"])),
+    k("case without else on the result of a fn field: missing variant", Body::Stmts(&["zh :: fn s: Zshop -> int do", "    case s.pick() do", "        Num q -> q end", "    end", "end"])),
     k("break outside a loop", Body::OutsideLoop(&["break"])),
     k("continue outside a loop", Body::OutsideLoop(&["continue"])),
     k("break in an if outside a loop", Body::OutsideLoop(&["if true do", "    break", "end"])),
